@@ -34,8 +34,13 @@ def build_replay(repo):
     return p.returncode == 0, p.stderr[-3000:]
 
 
+_BUILT = {}   # repo -> (ok, err): the replay crate is rebuilt from the working tree once per check process
+
+
 def run_witness(wfile, repo):
-    ok, err = build_replay(repo)
+    if repo not in _BUILT:
+        _BUILT[repo] = build_replay(repo)
+    ok, err = _BUILT[repo]
     if not ok:
         return {"reproduced": False, "error": "replay crate does not build: " + err}
     p = subprocess.run([replay_bin(), "--file", wfile], capture_output=True, text=True, timeout=120)
